@@ -110,12 +110,18 @@ def integration_and_binning(ctx, lentil, rng):
                     arr = (vals > 0) if dt is bool else np.round(vals * scale_).astype(dt)
                     si = lentil.radiometry.Spectrum(np.asarray(s.wave, dtype=float), arr, waveunit='nm', valueunit=None)
                     sf = lentil.radiometry.Spectrum(np.asarray(s.wave, dtype=float), arr.astype(float), waveunit='nm', valueunit=None)
-                    for m in ('trapz', 'simps'):
+                    for m in ('trapz', 'simps', 'trapz-all', 'simps-all'):
                         try:
-                            a_, b_ = si.integrate(lo, hi, method=m), sf.integrate(lo, hi, method=m)
+                            if m.endswith('-all'):
+                                # ... and with no bounds given at all (the whole spectrum)
+                                a_, b_ = si.integrate(method=m[:-4]), sf.integrate(method=m[:-4])
+                                if abs(sf.integrate(method=m[:-4]) - sf.integrate(float(sf.wave[0]), float(sf.wave[-1]), method=m[:-4])) > 1e-9 * (1 + abs(b_)):
+                                    a_ = float('nan')
+                            else:
+                                a_, b_ = si.integrate(lo, hi, method=m), sf.integrate(lo, hi, method=m)
                         except Exception:
                             continue                      # (Simpson on fewer than three samples etc.: refused for both)
-                        if abs(a_ - b_) > 1e-9 * (1 + abs(b_)):
+                        if not abs(a_ - b_) <= 1e-9 * (1 + abs(b_)):
                             ctx.violation({'kind': 'integrate-depends-on-value-dtype', 'method': m, 'dtype': np.dtype(dt).kind},
                                           {'spectrum': c['s'], 'values': arr.tolist(), 'as_float': float(b_), 'observed': float(a_)}, case={'case': c})
             # the same spectrum written in another wavelength unit (numbers of the order 1e-7 in metres): same integral, rescaled
@@ -194,6 +200,34 @@ def integration_and_binning(ctx, lentil, rng):
                 if m == 'trapz' and abs(span - float(sp.rf(e['span']))) > 1e-10 * (1 + abs(span)):
                     ctx.violation(dict(sig, kind='integrate-span'), {}, case={'case': c})
     return len(cases)
+
+
+def centre_sets_leaf(ctx, lentil, rng):
+    """bins depend on ALL their centres: two centre sets of the same size with the same first and last centre but different interior
+    centres, binned one after the other in one process (trapezoid rule: exact for a spectrum that is linear over the whole range)"""
+    n = 0
+    for _ in range(15):
+        a0, b0 = rng.choice((0.0, 1.5)), rng.choice((0.01, 0.004))
+        wv = np.arange(200., 901., 1.)                  # (wide enough for the outermost symmetric bin edges)
+        sl = lentil.radiometry.Spectrum(wv, a0 + b0 * (wv - 380.) + 2.0, waveunit='nm', valueunit=None)
+        k = rng.randint(4, 6)
+        sets = []
+        for _ in range(2):
+            inner = sorted(rng.sample(range(420, 680, 5), k - 2))
+            sets.append(np.array([400.] + [float(x) for x in inner] + [700.]))
+        for ends in ('symmetric', 'inside'):
+            for cs in sets:
+                n += 1
+                ctx.case(('centre-sets', ends, str(cs.tolist())))
+                mids = (cs[:-1] + cs[1:]) / 2
+                edges = np.concatenate([[cs[0] - (cs[1] - cs[0]) / 2], mids, [cs[-1] + (cs[-1] - cs[-2]) / 2]]) if ends == 'symmetric' else np.concatenate([[cs[0]], mids, [cs[-1]]])
+                f = lambda x: (a0 + 2.0) * x + b0 * (x - 380.) ** 2 / 2
+                expect = f(edges[1:]) - f(edges[:-1])
+                got = np.asarray(sl.bin(cs, interp_method='trapz', ends=ends, preserve_power=False, waveunit='nm'), dtype=float)
+                if got.shape != expect.shape or not np.allclose(got, expect, rtol=1e-9, atol=1e-12):
+                    ctx.violation({'kind': 'bin-value', 'method': 'trapz', 'ends': ends, 'centres': 'non-uniform, second set with the same ends'},
+                                  {'centres': cs.tolist(), 'expected': expect, 'observed': got}, case=None)
+    return n
 
 
 def one_sample_leaf(ctx, lentil, rng):
@@ -360,6 +394,7 @@ def run(ctx):
     q = ctx.tier == 'quick'
     ncases = integration_and_binning(ctx, lentil, rng)
     ctx.extra['one_sample_resample_cases'] = one_sample_leaf(ctx, lentil, rng)
+    ctx.extra['non_uniform_centre_set_cases'] = centre_sets_leaf(ctx, lentil, rng)
     events, offl = record_programs(lentil, rng, 400 if q else 4000, 4)
     bad = validate(ctx, events)
     byid = {e['id']: e for e in events}
